@@ -5,8 +5,14 @@ Emit == (phase = "done" /\ probe = 0) =>
           PrintT(<<"VEC", ToJson([cs |-> Cs(ops), texts |-> [s \in Schemes |-> VersText(s, Cs(ops))]])>>)
 \* C16: the same ranges with all their meaning-preserving spellings (emitted instead of Emit by the C16 run)
 CTexts(s, cs) == [i \in 1..Len(cs) |-> cs[i].op \o TheChain(s)[cs[i].pos + 1]]
-EmitVariants == (phase = "done" /\ probe = 0) =>
+\* the star range has spellings too: spaces and empty constraints around the star (a second star is not a spelling of
+\* the first: "the star occurs once" is a validation rule, C17); emitted once, from the first single-constraint range
+EmitStar == (phase = "pick" /\ probe = 0 /\ Cs(ops) = <<[op |-> ">=", pos |-> 1]>>) =>
+          \A s \in Schemes :
+            PrintT(<<"VEC", ToJson([scheme |-> s, cs |-> <<>>, base |-> Head5(s) \o "*", variants |-> SetToSeq(StarVariants(s))])>>)
+EmitRange == (phase = "done" /\ probe = 0) =>
           \A s \in Schemes :
             PrintT(<<"VEC", ToJson([scheme |-> s, cs |-> Cs(ops), base |-> VersText(s, Cs(ops)),
                                     variants |-> SetToSeq(Variants(s, CTexts(s, Cs(ops))))])>>)
+EmitVariants == EmitStar /\ EmitRange
 =============================================================================
